@@ -359,7 +359,7 @@ impl Enumerate for MapIterator {
   }
 
   fn size_hint(&self) -> Option<usize> {
-    Some(self.map.len())
+    Some(self.iter.len())
   }
 
   fn as_debug(&self) -> &dyn DebugHeap {
